@@ -83,7 +83,7 @@ type c10Op struct {
 	Op  string  `json:"op"`
 	K   int     `json:"k"` // index into the key universe of the key kind
 	V   int     `json:"v,omitempty"`
-	K2  int     `json:"k2,omitempty"` // clone: the key inserted into the clone
+	K2  int     `json:"k2,omitempty"`     // clone: the key inserted into the clone
 	Sub []c10Op `json:"during,omitempty"` // operations interleaved with a stepped range, one slot per step
 }
 
